@@ -135,6 +135,7 @@ def toOp (l : Line) : Option Op :=
   | "drain" => some (.drain c)
   | "fire" => some .fire
   | "expstate" => some .expState
+  | "reopenmem" => some .expState   -- every handle of an in-memory bucket closed, bucket opened again by name: nothing changes
   | "rb" => some (.rb c k (names l))
   | "lastcas" => some (.lastCas c)
   | "keys" => some (.keys c)
